@@ -1,6 +1,8 @@
 SPECIFICATION Spec
 CONSTANTS
   N = 2
+  FreshOverwrites = TRUE
+  CleanCreate = TRUE
   AtomicSidecar = TRUE
 INVARIANT Inv
 CHECK_DEADLOCK FALSE
